@@ -235,6 +235,19 @@ func (e *Engine) lockIntrinsic(st *State, fr *Frame, x *ssa.Call, name string, a
 		return false
 	}
 	p, ok := args[0].(VPtr)
+	if ok && p.L != nil && p.L.Kind == LHeap && len(p.L.Path) == 0 && x != nil && len(x.Call.Args) > 0 {
+		// mutex reached through a pointer field (m *sync.RWMutex): identify it with the field that holds it
+		if u, isLoad := x.Call.Args[0].(*ssa.UnOp); isLoad {
+			if fa, isField := u.X.(*ssa.FieldAddr); isField {
+				if owner, isPtr := e.val(st, fr, fa.X).(VPtr); isPtr && owner.L != nil && owner.L.Kind == LHeap {
+					nl := *owner.L
+					nl.Path = append(append([]pathStep(nil), owner.L.Path...), pathStep{Field: fa.Field})
+					p = VPtr{L: &nl, Elem: p.Elem}
+					e.Assumptions["a mutex held through a pointer field is identified with that field (the pointer is set once by the constructor)"] = true
+				}
+			}
+		}
+	}
 	if !ok || p.L == nil || p.L.Kind != LHeap || len(p.L.Path) < 1 {
 		panic(unsupported("mutex that is not a field of a heap object"))
 	}
